@@ -24,7 +24,7 @@ RULE = ("C15's random resolver problems, post-processed so that one name N (the 
         "has no merge op for N.  Determinism: every problem x resolver kind is resolved twice in-process from freshly built "
         "repositories, and a sample again in a child interpreter with another PYTHONHASHSEED; status and op sequences must be "
         "identical.  Independent resolvability oracle (vt/ref/c16_exists.py, complete search over the subsets of the source "
-        "repository): on single-target universes - the random ones and a structured family (app -> lang from one or two "
+        "repository): on the single-target universes of a structured family (app -> lang from one or two "
         "dependency classes, lang <-> boot build/runtime cycles with or without a boot-bin any-of escape, cycle members "
         "installed or not) - if a final set exists that contains H, is slot-consistent, dependency-closed for every merged and "
         "every leaned-on installed member, unblocked, and can be merged in an order in which every clause of every class is "
@@ -41,18 +41,18 @@ ASSUMPTIONS = [
     "the brute-force oracle claims 'H is resolvable' only for plans that lean on no dependency cycle at all and whose "
     "leaned-on installed packages have their own runtime dependencies in place first; cycle-dependent resolvability is left "
     "to the restricted-run clause, because the statement does not say which cycles a resolver must be able to break",
-    "the brute-force clause is judged on single-target problems only (with several targets 'the highest resolvable version' "
-    "of one target depends on what the others were given)",
+    "the brute-force clause is judged on the structured single-target family only; on random universes the comparison is "
+    "counted, not judged (greedy search: providers chosen earlier are not revisited, installed packages are not downgraded "
+    "to make room, self-blocking packages cannot be placed - the statement does not say how much search is owed)",
     "installed fixtures are built packages (built=True) like the packages of a real vdb",
 ]
 SHARDS = {"quick": 4, "thorough": 16}
 TIMEOUT = {"quick": 240, "thorough": 1800}
 MIN_EVALS = 400
 REQUIRED_COUNTERS = ("policy_upgrade_judged", "policy_min_install_judged", "determinism_pairs", "hashseed_child_compared",
-                     "bruteforce_judged:shape", "bruteforce_judged:random")
+                     "bruteforce_judged:shape", "bruteforce_compared:random")
 
 K_BUILT_PRUNED = "built-candidate-pruned-by-build-deps"
-K_GREEDY = "greedy-provider-choice-not-revisited"
 
 
 def scrub(rng, problem):
@@ -129,10 +129,6 @@ def classify(w):
         # was discarded because of build-time atoms the resolver never walks for built packages
         if cf.get("installed_build_deps_stripped") == "H chosen":
             return K_BUILT_PRUNED
-        # random universes only: H is chosen once the source repository offers nothing but the oracle's plan, i.e. the
-        # loss comes from a provider picked for an earlier atom that the search never revisits
-        if w.get("family") == "random" and cf.get("source_reduced_to_oracle_plan") == "H chosen":
-            return K_GREEDY
     return None
 
 
@@ -288,6 +284,18 @@ class Checker:
             full_up = self.run(problem, "upgrade")
         if full_up["status"] in ("timeout", "crash"):
             ctx.skip_unspecified("resolution crashed or did not finish (C15's clause)")
+            return
+        if family == "random":
+            # On random universes the comparison is recorded but not judged: the resolver's search is greedy (a provider
+            # picked for an earlier atom is never revisited, installed packages are not downgraded to make room, a
+            # package carrying a blocker that matches itself cannot be placed), and the statement does not say how much
+            # search a resolver owes.  The structured family below contains none of these ambiguities.
+            ctx.count("bruteforce_compared:random")
+            if self.chose(problem, full_up, name, target, hver):
+                ctx.count("bruteforce_random_agree")
+            else:
+                ctx.count("bruteforce_random_disagree")
+                ctx.skip_unspecified("random universe: oracle finds a plan with the highest version, the greedy search does not")
             return
         ctx.evaluated()
         ctx.count("bruteforce_judged:" + family)
